@@ -338,6 +338,7 @@ def random_cases(draw):
     if draw(st.integers(0, 9)) < 7:
         names = uniquify(names, parents)
     names = [n if sep not in rr.name_text(n) else "n%d" % i for i, n in enumerate(names)]  # 'X'.swapcase() with the separator 'x'
+    links = draw(st.lists(st.integers(0, size - 1), max_size=3, unique=True)) if draw(st.integers(0, 3)) == 0 else []
     texts = [rr.name_text(n) for n in names]
 
     def qmark(s):
@@ -376,7 +377,7 @@ def random_cases(draw):
         again = draw(st.lists(st.integers(0, len(queries) - 1), max_size=15))
         queries = queries + [queries[i] for i in again]
     muts = draw(strategies.tree_mutations(max_ops=2, rename_values=st.sampled_from(texts)))
-    return {"shape": shape, "names": names, "sep": sep, "pathattr": draw(st.sampled_from(["name", "name", "id"])), "queries": queries, "keep_cache": draw(st.booleans()), "mutations": muts, "get_first": draw(st.integers(0, 3)) == 0, "foreign_first": draw(st.integers(0, 2)) == 0}
+    return {"links": links, "shape": shape, "names": names, "sep": sep, "pathattr": draw(st.sampled_from(["name", "name", "id"])), "queries": queries, "keep_cache": draw(st.booleans()), "mutations": muts, "get_first": draw(st.integers(0, 3)) == 0, "foreign_first": draw(st.integers(0, 2)) == 0}
 
 
 ENUM_COMPS = ["a", "b", "a*", "?", "*", "**", "..", ".", "", "zz", "[a]"]
